@@ -42,7 +42,8 @@ class SimpleT:
     enum: list | None = None  # lexical strings
     facets: dict = field(default_factory=dict)
     list_of: "SimpleT | None" = None
-    union_of: list | None = None  # [SimpleT]
+    union_of: list | None = None  # [SimpleT]; members given by memberTypes first, then the inline ones (the order XSD tries them in)
+    inline: bool = False  # union member declared as an anonymous <xs:simpleType> child instead of through memberTypes
 
     def ref(self):
         return self.name
@@ -241,7 +242,15 @@ class XsdGen:
             return t
         self.feat.add("union")
         members = rng.choice([["int", "token"], ["date", "boolean"], ["decimal", "NMTOKEN"], ["int", "boolean"]])
-        t = SimpleT(self.gname("T"), "union", union_of=[SimpleT(None, m) for m in members])
+        union_of = [SimpleT(None, m) for m in members]
+        if rng.random() < 0.4:
+            # memberTypes and inline members in one union (xs:allNNI style): the inline ones come after the listed ones
+            listed = rng.choice([["nonNegativeInteger"], ["int"], ["date"], ["int", "boolean"], ["decimal"]])
+            inline = rng.choice([SimpleT(None, "token", enum=rng.choice([["unbounded"], ["unbounded", "none"], ["many", "few", "n-a"]]), inline=True),
+                                 SimpleT(None, "string", facets={"maxLength": "40", "minLength": "0"}, inline=True) if "boolean" not in listed else SimpleT(None, "token", enum=["maybe"], inline=True)])
+            union_of = [SimpleT(None, m) for m in listed] + [inline]
+            self.feat.add("union-memberTypes-and-inline")
+        t = SimpleT(self.gname("T"), "union", union_of=union_of)
         schema.stypes.append(t)
         return t
 
@@ -407,8 +416,8 @@ class XsdGen:
         n_types = rng.randrange(1, self.max_types + 1)
         # imported schema (other namespace) with a type and a global element
         other = None
-        if rng.random() < (0.45 if self.hostile else 0.3) and tns and not self.simple:
-            other = Schema(f"urn:xsdgen:{salt}:other", efd=rng.random() < 0.7, afd=False, file="other.xsd")
+        if rng.random() < (0.45 if self.hostile else 0.4) and tns and not self.simple:
+            other = Schema(f"urn:xsdgen:{salt}:other", efd=rng.random() < 0.7, afd=False, file=rng.choice(["other.xsd", "other.xsd", "other_base_types.xsd", "common_types_v2.xsd"]))  # (module names of several words: import aliases are built from the words two module paths differ in)
             oct = self.complex_type(ss, other, self.gname("OtherType"), self.depth, [])
             other.ctypes.append(oct)
             ge = ElemDecl(self.gname("otherEl"), SimpleT(None, rng.choice(["string", "int", "date"])), is_global=True, ns=other.tns)
@@ -484,13 +493,22 @@ class XsdGen:
                     self.feat.add("substitution-group")
         # the same local type name in both namespaces (legal: the names are qualified): the generator has to keep
         # the two classes apart (import aliases, numeric suffixes where one module/package holds both)
-        if other is not None and rng.random() < 0.5:
+        if other is not None and rng.random() < 0.6:
             twin = rng.choice([c for c in main.ctypes if c.name])
             variants = [twin.name]
             if self.hostile:
                 variants += [v for v in (twin.name.lower(), twin.name.upper(), twin.name[:1].swapcase() + twin.name[1:]) if v != twin.name and lx.is_ncname(v)]
             other.ctypes[0].name = rng.choice(variants)
             self.feat.add("same-type-name-in-two-namespaces")
+            # ... and both of them as branches of one choice (one compound field naming both classes)
+            hosts = [c for c in main.ctypes if c.content is not None and c.content.kind == "sequence" and c.base is None and not c.mixed and not any(d.base is c for d in main.ctypes)]
+            if hosts and rng.random() < 0.7:
+                host = rng.choice(hosts)
+                used = names_of(host)
+                branches = [ElemDecl(self.name(used), twin, min=1, max=1), ElemDecl(self.name(used), other.ctypes[0], min=1, max=1)]
+                rng.shuffle(branches)
+                insert_before_any(host.content, Group("choice", branches, min=0, max=rng.choice([1, -1])))
+                self.feat.add("choice-of-same-named-types")
         # global elements (roots)
         roots = main.ctypes[-rng.randrange(1, min(3, len(main.ctypes)) + 1):]
         for ct in roots:
@@ -659,7 +677,12 @@ class Renderer:
         if t.list_of is not None:
             return f'{pad}<xs:simpleType{name}><xs:list itemType="xs:{t.list_of.base}"/></xs:simpleType>'
         if t.union_of is not None:
-            return f'{pad}<xs:simpleType{name}><xs:union memberTypes="{" ".join("xs:" + m.base for m in t.union_of)}"/></xs:simpleType>'
+            listed = " ".join("xs:" + m.base for m in t.union_of if not m.inline)
+            inline = [self.simple(s, m, ind + 2, anonymous=True) for m in t.union_of if m.inline]
+            if not inline:
+                return f'{pad}<xs:simpleType{name}><xs:union memberTypes="{listed}"/></xs:simpleType>'
+            mt = f' memberTypes="{listed}"' if listed else ""
+            return f'{pad}<xs:simpleType{name}>\n{pad}  <xs:union{mt}>\n' + "\n".join(inline) + f'\n{pad}  </xs:union>\n{pad}</xs:simpleType>'
         body = []
         for v in t.enum or []:
             body.append(f'{pad}    <xs:enumeration value="{esc(v)}"/>')
